@@ -189,3 +189,79 @@ Example C09_batch_instance :
   batch_imap nat nat (fun n => seq 0 n) (fun n => if Nat.even n then Some (10 + n)%nat else None) [2; 0; 1]%nat false [3; 0; 2]%nat
   = [(0, 0); (1, 0); (2, 0); (0, 12); (1, 12)]%nat.
 Proof. exact ex_batch. Qed.
+
+(* ------------------------------------------------------------------------------------
+   Transposition of the refinement stage and of the composed discrete pipeline
+   (proofs in Proofs/Equivariance2.v).  Vocabulary:
+     transposed im1 im2     im2 = im1.T  (numpy: all axes reversed; any number of axes)
+     lp_rev P               every per-axis parameter (separation, margin, radius) reversed alike
+     row_transposed a b     o_pos b = rev (o_pos a)            position columns reversed
+                            o_mass b = o_mass a                mass identical
+                            characterize columns: sizes b = rev (sizes a)  (per-axis sizes reversed;
+                            isotropic radii report a single size, which is then identical),
+                            signal and raw_mass identical
+   All equalities are equalities of the model's exact rationals.  ecc is not part of the
+   refinement model (open finding F13, theorems (7)). *)
+From TP Require Import Proofs.Equivariance2.
+
+(* (9) Transposition, refinement: started at the reversed coordinate on the transposed
+   image with the radii reversed, the centre-of-mass iteration (Model/COM.refine_python,
+   engine='python') visits the mirrored windows and reports the transposed row.  No
+   premise on the image content, the distance to the edges or the iteration count. *)
+Theorem C09_refine_transposed : forall P im1 im2 start,
+  transposed im1 im2 ->
+  length (lp_radius P) = length (shape im1) -> length start = length (shape im1) ->
+  row_transposed (refine_at P im1 start) (refine_at (lp_rev P) im2 (rev start)).
+Proof. exact refine_at_transposed. Qed.
+Print Assumptions C09_refine_transposed.
+
+(* (9b) ... with equal radii on all axes the (size, signal, raw_mass) entry is identical *)
+Theorem C09_refine_transposed_isotropic : forall P im1 im2 start,
+  transposed im1 im2 ->
+  length (lp_radius P) = length (shape im1) -> length start = length (shape im1) ->
+  isotropic (lp_radius P) = true ->
+  o_char (refine_at (lp_rev P) im2 (rev start)) = o_char (refine_at P im1 start).
+Proof. exact refine_at_transposed_isotropic. Qed.
+Print Assumptions C09_refine_transposed_isotropic.
+
+(* (10) Transposition, composed: locate's table before the tail (integer image,
+   preprocess=False) on the transposed image, parameters reversed with the axes, consists
+   of the same rows (as a multiset: the row order follows np.where order, which
+   transposition changes), every row transposed.  Holds for ANY integer image. *)
+Theorem C09_locate_discrete_transposed :
+  forall (percentile : list Z -> Q),
+    (forall l l', Permutation l l' -> percentile l = percentile l') ->
+  forall im1 im2 P,
+    transposed im1 im2 ->
+    length (lp_sep P) = length (shape im1) -> length (lp_margin P) = length (shape im1) ->
+    length (lp_radius P) = length (shape im1) ->
+    Forall (fun s => 1 <= s) (sizes_of im1 (lp_sep P)) ->
+    exists rows, Permutation (locate_discrete percentile (lp_rev P) im2) rows /\
+                 Forall2 row_transposed (locate_discrete percentile P im1) rows.
+Proof. exact locate_discrete_transposed. Qed.
+Print Assumptions C09_locate_discrete_transposed.
+
+(* Non-vacuity of (9), (10): the 14x15 canvas ex_im1 and its transpose meet the premises,
+   also with anisotropic parameters ex_P2 (diameter (3, 5), separation (3, 5), margin (1, 2)) *)
+Example C09_transposition_premises_satisfiable :
+  transposed ex_im1 (transpose ex_im1) /\
+  length (lp_sep ex_P2) = length (shape ex_im1) /\ length (lp_margin ex_P2) = length (shape ex_im1) /\
+  length (lp_radius ex_P2) = length (shape ex_im1) /\
+  Forall (fun s => 1 <= s) (sizes_of ex_im1 (lp_sep ex_P2)).
+Proof. exact ex_transposed_premises. Qed.
+
+(* isotropic: position columns swapped, one size, everything else identical *)
+Example C09_locate_transposed_instance_isotropic :
+  locate_discrete ex_percentile ex_P ex_im1 =
+    [mkOut [222 # 37; 259 # 37]%Q 37 (Some ([28 # 37]%Q, 9, 37))] /\
+  locate_discrete ex_percentile (lp_rev ex_P) (transpose ex_im1) =
+    [mkOut [259 # 37; 222 # 37]%Q 37 (Some ([28 # 37]%Q, 9, 37))].
+Proof. exact ex_locate_transposed_iso. Qed.
+
+(* anisotropic: the two per-axis sizes differ and are swapped with the axes *)
+Example C09_locate_transposed_instance_anisotropic :
+  locate_discrete ex_percentile ex_P2 ex_im1 =
+    [mkOut [234 # 39; 273 # 39]%Q 39 (Some ([28 # 39; 44 # 39]%Q, 9, 39))] /\
+  locate_discrete ex_percentile (lp_rev ex_P2) (transpose ex_im1) =
+    [mkOut [273 # 39; 234 # 39]%Q 39 (Some ([44 # 39; 28 # 39]%Q, 9, 39))].
+Proof. exact ex_locate_transposed_aniso. Qed.
